@@ -153,6 +153,27 @@ def main(args):
     if hist[0] != hist[1]:
         bad.append("E2: same configuration and command history, different "
                    "object addresses afterwards")
+    # process actors: the same interpreter configurations and the same seed
+    # give the same kernel event log
+    from simkit import procexec
+    digs = []
+    for _ in range(2):
+        pcfgs = fleet.draw_configs(random.Random(5), 4)
+        ws = [fleet.Worker(c["hashseed"], c["prelude"], f"d{i}")
+              for i, c in enumerate(pcfgs)]
+        d = []
+        for k in range(25):
+            r = random.Random(f"detp{k}")
+            rec = mrecipe.gen_recipe(r)
+            pres = procexec.run_case(ws, rec, simmpi.draw_config(r, rec["nranks"]),
+                                     simmpi.Chooser(r), iterations=r.choice([1, 2]))
+            d.append((pres["log_digest"], pres["outcome"]))
+        for w in ws:
+            w.close()
+        digs.append(d)
+    if digs[0] != digs[1]:
+        bad.append("E1/process actors: same configurations and seed, different "
+                   "event logs")
     conf = {"sessions": 1, "workers": 2, "single": 6, "multi": 20}
     recs = []
     for _ in range(2):
